@@ -737,7 +737,7 @@ def _check_case(res, case):
     Ck = run_engine(case, "key")
     runs += 1
     bad = compare_runs(la, Ck["leaves"])
-    res.outcome("int-vs-key", "equal" if not bad else "differs")
+    res.outcome("int-vs-key", "constructor" if case.get("eseed") is None else "set_engine_seed", "equal" if not bad else "differs")
     if bad:
         if case.get("eseed") is None:
             viol("reproducibility", "int-seed-vs-PRNGKey-differs", f"seed={case['seed']} and PRNGKey({case['seed']}) give different results in {len(bad)} leaves, first {bad[:3]}", bad[:10])
@@ -745,6 +745,23 @@ def _check_case(res, case):
             viol("reproducibility", "set_engine_seed-int-vs-PRNGKey-differs", f"set_engine_seed({case['eseed']}) and set_engine_seed(PRNGKey({case['eseed']})) give different results in {len(bad)} leaves, first {bad[:3]}", bad[:10])
     if not all(_same(x, y) for x, y in zip(A["carries"], Ck["carries"])):
         viol("reproducibility", "carry-key-differs-int-vs-PRNGKey", "Engine._prng_key differs between the int-seed and the PRNGKey-seed run")
+    if case.get("multikey"):
+        # explicit per-chain key array through set_engine_seed: must run, be reproducible
+        # and hand out distinct keys; whether it equals the single-key run is recorded only
+        M1 = run_engine(case, "multi")
+        M2 = run_engine(case, "multi")
+        runs += 2
+        badm = compare_runs(M1["leaves"], M2["leaves"])
+        res.outcome("engine-seed-array", "reproducible" if not badm else "differs", "same-as-single-key" if not compare_runs(la, M1["leaves"]) else "other-stream")
+        if badm:
+            viol("reproducibility", "set_engine_seed-key-array-differs", f"two runs with the same per-chain key array differ in {len(badm)} leaves, first {badm[:3]}", badm[:10])
+        if tracer:
+            seen_m = {}
+            for k0, k1, lab in collect_keys(case, M1):
+                if (k0, k1) in seen_m:
+                    viol("distinct-keys", f"key-array-duplicate-{seen_m[(k0, k1)][0]}:{seen_m[(k0, k1)][3]}-vs-{lab[0]}:{lab[3]}", f"per-chain key array: the same key was handed out twice: {seen_m[(k0, k1)]} and {lab}")
+                    break
+                seen_m[(k0, k1)] = lab
 
     # --- initial values
     exp = ref.expected_first_sample(case, la)
